@@ -122,6 +122,7 @@ static void check_layout(int which, size_t listmax) {
   ldb_edit_t e; ldb_buffer_t out; ref_rec_t R; size_t pos = 0, len, i; IN_SIZE(in_j);
   build_edit(&e, which, listmax);
   ldb_buffer_init(&out);
+  ldb_buffer_grow(&out, 160); /* destination with enough capacity: reallocation during export is buf.expand's business, not this unit's */
   ldb_edit_export(&out, &e);
   if (M.has_cmp) EXPECT_REC(R.tag == 1 && BYTES_EQ(R.k1, R.k1n, (const uint8_t *)M.name, M.name_len, in_j), "edit_export: first tag 1 with the length-prefixed comparator name");
   if (M.has_log) EXPECT_REC(R.tag == 2 && R.num == M.log, "edit_export: then tag 2 with log_number as varint64");
@@ -152,6 +153,7 @@ static void check_rt(int which, size_t listmax) {
   rb_iter_t it;
   build_edit(&e, which, listmax);
   ldb_buffer_init(&out);
+  ldb_buffer_grow(&out, 160); /* destination with enough capacity: reallocation during export is buf.expand's business, not this unit's */
   ldb_edit_export(&out, &e);
   rec.data = out.data; rec.size = out.size; rec.alloc = 0;
   ldb_edit_init(&d);
